@@ -357,4 +357,21 @@ theorem unlocked_gets_lose_update :
   ⟨[.install, .drain false, .readCur false, .install, .drain true, .readCur true, .build true, .build false],
    _, rfl, by decide, by decide, by decide, by decide⟩
 
+/-! ### T1: the functions the model transcribes, statement by statement (white space collapsed) -/
+
+def expected_Updater_Get : List String := ["u.mu.Lock()", "defer u.mu.Unlock()", "select { case <-u.w.Ready(): nv, err := u.newValue(u.w.Get()) if err != nil { u.logf(\"WARNING: Error updating value: %v (keeping old value)\", err) } else { if c, ok := any(u.value).(io.Closer); ok { c.Close() } u.value = nv } u.err = err return u.value default: }", "return u.value"]
+
+/-- Updater.Get: under the updater's mutex - take a pending notification if there is one, read the secret, build; on success close the old value if it is a Closer and swap, record the error either way -/
+theorem fact_Updater_Get_as_transcribed : Facts.body_Updater_Get = expected_Updater_Get := by rfl
+
+def expected_Store_lookupWatcher : List String := ["s.active.Lock()", "defer s.active.Unlock()", "var secret Secret", "if _, ok := s.active.m[name]; ok { secret = s.secretLocked(name) } else if !s.allowLookup { return watcher{}, errors.New(\"lookup is not enabled\") } else { got, err := func() (Secret, error) { s.active.Unlock() defer s.active.Lock() return s.lookupSecretInternal(ctx, name) }() if err != nil { return watcher{}, err } secret = got }", "w := watcher{ready: make(chan struct{}, 1), Secret: secret}", "s.active.w[name] = append(s.active.w[name], w)", "return w, nil"]
+
+/-- lookupWatcher: under the store's lock (given up only around the lookup of an unknown name) - a one-slot channel, appended to the name's list as it is at that moment -/
+theorem fact_Store_lookupWatcher_as_transcribed : Facts.body_Store_lookupWatcher = expected_Store_lookupWatcher := by rfl
+
+def expected_watcher_notify : List String := ["select { case w.ready <- struct{}{}: default: }"]
+
+/-- notify: a non-blocking send into the one-slot channel -/
+theorem fact_watcher_notify_as_transcribed : Facts.body_watcher_notify = expected_watcher_notify := by rfl
+
 end Setec.C15
